@@ -4,7 +4,8 @@
   `unevaluatedItems`, `unevaluatedProperties` unknown — finding D27, repaired; `$dynamicRef` unknown, to Resolve too —
   finding D28, repaired).
   Property theorems only (helper lemmas: JSV/Proofs/InvDraft.lean, JSV/Proofs/InvLater.lean, JSV/Proofs/ResDraft.lean,
-  JSV/Proofs/ResLater.lean; section "algebraic laws":
+  JSV/Proofs/ResLater.lean; "each draft sees only its own vocabulary": JSV/Proofs/InvVocab.lean, JSV/Proofs/ResVocab.lean;
+  section "algebraic laws":
   JSV/Proofs/SpecLaws*.lean).
 -/
 import JSV.Proofs.InvDraft
